@@ -1223,13 +1223,18 @@ def url_helpers(plan, out):
     n = 0
     bad = {}
 
+    cur_len = [0]
+
     def flag(what, s, detail):
         if what not in bad:
-            bad[what] = (s, detail)
+            # (the number of alphabet TOKENS the string is made of: a token
+            # such as 'FILE:' is several characters long)
+            bad[what] = (s, detail, cur_len[0])
 
     os.chdir("/")
     distinct = set()
     for L in range(0, plan["maxlen"] + 1):
+        cur_len[0] = L
         for tup in itertools.product(ALPHABET, repeat=L):
             s = "".join(tup)
             n += 1
@@ -1275,12 +1280,12 @@ def url_helpers(plan, out):
     out["digests"] = sorted(hashlib.sha256(x.encode()).hexdigest()[:16]
                             for x in itertools.islice(sorted(distinct), 5000))
     out["probes"]["url-helper-strings"] = n
-    for what, (s, detail) in sorted(bad.items()):
+    for what, (s, detail, ntok) in sorted(bad.items()):
         out["violations"].append({
             "sig": "C18|url-helper|%s" % what,
             "key": {"clause": "url-helper", "what": what},
             "detail": "%s violated for %r: %r" % (what, s, detail),
-            "plan": {"prop": ID, "kind": "url-helpers", "maxlen": len(s)}})
+            "plan": {"prop": ID, "kind": "url-helpers", "maxlen": ntok}})
     return out
 
 
